@@ -18,7 +18,7 @@ type c17 struct{ base }
 func init() {
 	core.Register(&c17{base: base{
 		id: "C17",
-		rule: "cases = generated schemas (containers with and without presence, single-key lists with string or uint16 keys, leaves of modelled types incl. empty, leaf-lists, " +
+		rule: "cases = generated schemas (containers with and without presence, lists with one or two key leaves (string or integer keys), leaves of modelled types incl. empty, leaf-lists, " +
 			"nested choices and cases, typedef'd and union types); for each schema every root-to-node walk with valid key and leaf values is enumerated (bounded at 60 walks), and for each walk: " +
 			"the walk itself, every proper prefix, every one-token corruption (unknown name, a value the type rejects, a choice or case name used as a token) and over-long paths (+1, +2 tokens), " +
 			"each validated with AllowIncompletePaths false and true through ModelSet.Validate; verdict, index of the first offending token (error-path) and its name in the error are compared " +
@@ -26,7 +26,7 @@ func init() {
 		block: 8,
 		assumptions: []string{
 			"the reference walker R-PATH works on the generator's statement tree: choices and cases are transparent, the token after a list name is validated against the key leaf's type, the token after a leaf or leaf-list name against its type and must be last",
-			"multi-key lists are not generated (the property speaks of 'that list's key value'); leaf types are limited to those the value-space model covers (no leafref / identityref)",
+			"a third of the lists have two key leaves: the property speaks of 'the token after a list name', so exactly one token is taken as key value (validated against the first key leaf) and the next token names a child; leaf types are limited to those the value-space model covers (no leafref / identityref)",
 		},
 		minEvents: []string{"schemas_compiled", "paths_validated", "accepted_by_both", "rejected_by_both", "incomplete_paths", "corrupted_paths"},
 	}})
@@ -47,7 +47,31 @@ func c17GenSet(seed int64, idx int, tag string) *yang.ModSet {
 	cfg.Uses, cfg.Refine, cfg.Augment, cfg.MustWhen, cfg.Status = false, false, false, false, false
 	cfg.NoRefTypes = true
 	cfg.MaxDepth = 3
-	return yang.GenSchemaSet(r, cfg)
+	ms := yang.GenSchemaSet(r, cfg)
+	// some lists get a second key leaf (key "name id2"): the walker still takes exactly one token
+	// after the list name — the value of the first key — and the next token names a child
+	var walk func(s *yang.Stmt)
+	walk = func(s *yang.Stmt) {
+		for _, k := range s.Kids {
+			walk(k)
+		}
+		if s.Kw == "list" && s.Find("key") != nil && s.FindArg("leaf", "id2") == nil && r.Chance(1, 3) {
+			s.Find("key").Arg += " id2"
+			id2 := yang.S("leaf", "id2", yang.S("type", core.Pick(r, []string{"uint8", "string", "int16"})))
+			var kids []*yang.Stmt
+			for _, k := range s.Kids {
+				kids = append(kids, k)
+				if k.Kw == "leaf" && k.Arg == "name" {
+					kids = append(kids, id2)
+				}
+			}
+			s.Kids = kids
+		}
+	}
+	for _, m := range ms.Mods {
+		walk(m)
+	}
+	return ms
 }
 
 // ---- reference model of the data tree shape
@@ -72,7 +96,7 @@ func buildRnodes(ms *yang.ModSet, mod *yang.Stmt, parent *yang.Stmt) []*rnode {
 			n := &rnode{s: k, mod: mod}
 			n.kids = buildRnodes(ms, mod, k)
 			if k.Kw == "list" {
-				kn := k.Find("key").Arg
+				kn := strings.Fields(k.Find("key").Arg)[0] // (the walker validates the token after the list name as the first key's value)
 				for _, c := range n.kids {
 					if c.s.Arg == kn {
 						n.key = c
